@@ -30,6 +30,21 @@ type RefFunc struct {
 var canonShort = map[*ssa.Function]string{}
 
 // ShortName is fn.Name() without type arguments, or the reference name if fn was renamed.
+// methodAlias maps the current name of a renamed method to its reference name (see ApplyReference).
+var methodAlias = map[string]string{}
+
+// MethodName is the name of an interface method as the rules know it: the reference name if the method (with its
+// implementations) was renamed, else its own name.
+func MethodName(m *types.Func) string {
+	if m == nil {
+		return ""
+	}
+	if a, ok := methodAlias[m.Name()]; ok && a != "" {
+		return a
+	}
+	return m.Name()
+}
+
 func ShortName(fn *ssa.Function) string {
 	if fn == nil {
 		return ""
@@ -115,6 +130,7 @@ func (p *Prog) DumpRefFuncs(path string) error {
 // rename pairs found ("new -> reference").
 func (p *Prog) ApplyReference(path string) []string {
 	canonShort = map[*ssa.Function]string{}
+	methodAlias = map[string]string{}
 	p.canonFull = map[*ssa.Function]string{}
 	p.byName = nil
 	b, err := os.ReadFile(path)
@@ -157,6 +173,15 @@ func (p *Prog) ApplyReference(path string) []string {
 		}
 		f := as[0]
 		canonShort[f] = ms[0].Short
+		// a renamed method: calls through an interface (which carry only the method's name) are read under the
+		// reference name as well, unless two renamed methods share the new name but not the old one
+		if f.Signature.Recv() != nil && f.Name() != ms[0].Short {
+			if prev, seen := methodAlias[f.Name()]; seen && prev != ms[0].Short {
+				methodAlias[f.Name()] = ""
+			} else {
+				methodAlias[f.Name()] = ms[0].Short
+			}
+		}
 		p.canonFull[f] = ms[0].Name
 		pairs = append(pairs, p.rawFuncName(f)+" -> "+ms[0].Name)
 	}
